@@ -89,6 +89,14 @@ def dec(s):
             p = go()
             x = byte()
             return ('E' if t == 8 else 'S', p, x, go())
+        if t == 10:
+            body = go()
+            n = byte()
+            args = []
+            for _ in range(n):
+                k = byte()
+                args.append((k, go()))
+            return ('N', body, tuple(args))
         raise ValueError('tag')
 
     return go()
@@ -270,9 +278,10 @@ def has_subst(p):
 class Cfg:
     """knobs of the pattern generator"""
 
-    def __init__(self, max_id=4, syms=6, big_ids=False, constrained=0.25, subst=0.12, binders=0.2):
+    def __init__(self, max_id=4, syms=6, big_ids=False, constrained=0.25, subst=0.12, binders=0.2, safe=False):
         self.max_id, self.syms, self.big_ids = max_id, syms, big_ids
         self.constrained, self.subst, self.binders = constrained, subst, binders
+        self.safe = safe         # stay inside the checker's side conditions (positive mu, well-formed substitutions)
 
 
 def rid(rng, cfg):
@@ -293,6 +302,8 @@ def gen_metavar(rng, cfg):
     for _ in range(5):
         n = rng.choice([0, 0, 0, 1, 1, 2])
         ls.append(tuple(rid(rng, cfg) for _ in range(n)))
+    if cfg.safe:
+        ls[4] = tuple(h for h in ls[4] if h not in ls[0])     # app_ctx_holes disjoint from e_fresh
     return mv(i, *ls)
 
 
@@ -316,11 +327,17 @@ def gen_pat(rng, depth, cfg):
         if rng.random() < 0.6:
             return ('x', rid(rng, cfg), gen_pat(rng, depth - 1, cfg))
         X = rid(rng, cfg)
-        # mostly positive bodies: no occurrence of X on the left of an implication
+        if cfg.safe:
+            X = cfg.max_id + rng.randrange(3)      # a set variable the body cannot mention: trivially positive
         body = gen_pat(rng, depth - 1, cfg)
+        if cfg.safe and metavars(body):
+            return ('x', rid(rng, cfg), body)      # the checker wants declared positivity of metavariables under mu
         return ('m', X, body)
     if r < 0.7 + cfg.binders + cfg.subst:
         head = gen_metavar(rng, cfg)
+        if cfg.safe:
+            # well-formed: a clean metavariable head, a variable nobody declares fresh, a plug that is not that variable
+            return ('E' if rng.random() < 0.5 else 'S', mv(head[1]), cfg.max_id + 1 + rng.randrange(2), ('y', rsym(rng, cfg)))
         if rng.random() < 0.3:
             head = ('E' if rng.random() < 0.5 else 'S', head, rid(rng, cfg), gen_pat(rng, 0, cfg))
         return ('E' if rng.random() < 0.5 else 'S', head, rid(rng, cfg), gen_pat(rng, max(0, depth - 2), cfg))
@@ -367,6 +384,16 @@ def mv_leaves(p, path=(), under_subst=False):
         yield from mv_leaves(p[2], path + (2,))
 
 
+def under_mu(q, path):
+    """does the path pass through a mu node?"""
+    node = q
+    for step in path:
+        if node[0] == 'm':
+            return True
+        node = node[step]
+    return False
+
+
 def notate(rng, q, depth=1):
     """a notation-carrying pattern whose full expansion is the expanded pattern q.  Like every
     Notation.__call__ of the code base the result is a COMPLETE instantiation: every metavariable of
@@ -375,7 +402,7 @@ def notate(rng, q, depth=1):
     if has_subst(q) or rng.random() < 0.15:
         # zero-ary notation: Instantiate(q, {})
         return ('N', q, ())
-    subs = [(path, s) for path, s in subterms(q) if path and s[0] != 'v']
+    subs = [(path, s) for path, s in subterms(q) if path and s[0] != 'v' and not under_mu(q, path)]
     used = metavars(q)
     k = rng.choice([0, 1, 1, 2, 3])
     chosen = []
@@ -398,6 +425,10 @@ def notate(rng, q, depth=1):
     for path, leaf in list(mv_leaves(body)):
         if leaf[1] in keys and leaf == mv(leaf[1]):
             continue
+        if under_mu(body, path):
+            # a metavariable under mu must keep its positivity constraints: not abstractable;
+            # fall back to the zero-ary notation
+            return ('N', q, ())
         if leaf not in seen:
             while nxt in used:
                 nxt += 1
